@@ -367,6 +367,14 @@ func RunHandler(prog HProg, stream grpc.ServerStream, log *HLog) error {
 }
 
 // Snapshot returns a copy safe to read while the handler may still run.
+// MarkReturned records that a handler which does not run a program (a unary handler) has finished.
+func (l *HLog) MarkReturned() {
+	l.mu.Lock()
+	l.Returned = true
+	l.ReturnedAt = time.Now()
+	l.mu.Unlock()
+}
+
 func (l *HLog) Snapshot() *HLog {
 	l.mu.Lock()
 	defer l.mu.Unlock()
